@@ -198,6 +198,15 @@ def apply(I, st, inst, node, nidx, callee, args, term, dty, line):
         r = I.ptr_add(args[0], as_poly(args[1]), ety, sign=-1 if name == "sub" else 1)
         E("PTRADD", base=h(args[0]), n=as_poly(args[1]), ety=ety, result=r)
         return r
+    if path in ("core::ptr::const_ptr::<impl *const T>::byte_add", "core::ptr::mut_ptr::<impl *mut T>::byte_add",
+                "core::ptr::const_ptr::<impl *const T>::byte_sub", "core::ptr::mut_ptr::<impl *mut T>::byte_sub",
+                "core::ptr::const_ptr::<impl *const T>::byte_offset", "core::ptr::mut_ptr::<impl *mut T>::byte_offset"):
+        v = args[0]
+        n = as_poly(args[1])
+        if isinstance(v, tuple) and v and v[0] == "ptr":
+            r = ("ptr", v[1], (v[2] - n) if name == "byte_sub" else (v[2] + n), v[3])      # the offset is kept in bytes: same pointee type, n bytes further
+            E("PTRADD", base=h(v), n=n, ety="u8", result=r)
+            return r
     if path in ("core::mem::MaybeUninit::<T>::as_ptr", "core::mem::MaybeUninit::<T>::as_mut_ptr"):
         p = ref_path(args[0])
         ety = ty_str(garg(I, inst, callee, 0))
@@ -314,8 +323,19 @@ def apply(I, st, inst, node, nidx, callee, args, term, dty, line):
             return ("checked", "Div", as_poly(args[0]), as_poly(args[1]))
     if path.startswith("core::num::<impl usize>::saturating_"):
         op = {"saturating_add": "Add", "saturating_sub": "Sub", "saturating_mul": "Mul"}.get(name)
-        E("ARITH", op=op, a=as_poly(args[0]), b=as_poly(args[1]), checked=True, how=name)
-        return Poly.atom((name, as_poly(args[0]), as_poly(args[1])))
+        a_, b_ = as_poly(args[0]), as_poly(args[1])
+        from .interp import implies_ge0
+        if name == "saturating_sub" and implies_ge0(st.facts, a_ - b_):
+            # the subtrahend is known not to exceed the minuend: nothing saturates, the result is the plain difference
+            E("ARITH", op=op, a=a_, b=b_, checked=True, how="checked_sub")
+            return a_ - b_
+        E("ARITH", op=op, a=a_, b=b_, checked=True, how=name)
+        if name == "saturating_add":
+            # value domain: the sum (as for `a + b`, whose overflow is R-ARITH's business: the ARITH effect above says that this one clamps)
+            return a_ + b_
+        if name in ("saturating_mul",):
+            a_, b_ = sorted([a_, b_], key=repr)          # commutative: one spelling
+        return Poly.atom((name, a_, b_))
     if path.startswith("core::num::<impl usize>::wrapping_"):
         op = {"wrapping_add": "Add", "wrapping_sub": "Sub", "wrapping_mul": "Mul"}.get(name)
         E("ARITH", op=op, a=as_poly(args[0]), b=as_poly(args[1]), checked=False, how=name)
